@@ -29,6 +29,10 @@ def run_reader_check(v, prop, tier, ops_of_interest, ev):
     # interleaved, multi-run archives first
     rich = [s for s in scens if len(s["files"]) >= 2 and any(len(i["offs"]) >= 2 for i in s["hid"]["info"])]
     chosen = pick(rich or scens, 8 if tier == "quick" else 40, seed() + 17)
+    # the same family with a multi-byte UTF-8 name ("héé") and a two-byte one: byte lengths and character counts differ
+    resu, scensu = scenarios_from_writer("Writer.scen.uni.cfg", prop.lower() + "-scenu")
+    richu = [s for s in scensu if len(s["files"]) >= 2 and any(len(i["offs"]) >= 2 for i in s["hid"]["info"])]
+    chosen += pick(richu or scensu, 3 if tier == "quick" else 10, seed() + 18, rich_share=0)
     wd = workdir(prop.lower())
     sp = os.path.join(wd, "scen.json")
     sj = [scen_json(s) for s in chosen]
